@@ -714,6 +714,16 @@ impl WorldA {
                         format!("{} drew {} of {}'s tokens on an allowance expired at {:?}", sender, a, owner, pe),
                     );
                 }
+                if pre.bal[*o] < *a {
+                    // the allowance is lowered by `a` "while moving exactly that amount": the owner must have held it
+                    self.viol(
+                        out,
+                        "C02",
+                        "draw-exceeds-owner-balance",
+                        json!({"recipient_is_owner": pre.bal == post.bal}),
+                        format!("{} drew {} of {}'s tokens, the owner held only {}", sender, a, owner, pre.bal[*o]),
+                    );
+                }
                 if pa < *a {
                     self.viol(
                         out,
